@@ -283,3 +283,57 @@ def cell_variable(s: str) -> bool:
     p, pr = fresh("$SYM[*][ @v = #0  @v ]", [["h", "i"], ["1", "2"]])
     p.track_line([s, "y"])
     return p._consider_line([s, "y"])
+
+
+# ------------------------------------------------------------------ O1s string functions over cells
+WORDS = ["a", "ab", "abc", " ab ", "b", "Ab", "a b"]
+
+
+def str_oracle(fn, i, j, n):
+    s, t = WORDS[i], WORDS[j]
+    if fn == "length":
+        return len(s.strip())  # header values are trimmed when read
+    if fn == "concat":
+        return s.strip() + t.strip()
+    if fn == "starts_with":
+        return s.strip().startswith(t.strip())
+    if fn == "substring":
+        return s.strip()[0:n].strip()  # function results are trimmed when read back
+    if fn == "strip":
+        return s.strip()
+    if fn == "upper":
+        return s.strip().upper()
+    if fn == "lower":
+        return s.strip().lower()
+
+
+STRFN = {
+    "length": "@r = length(#0)",
+    "concat": "@r = concat(#0, #1)",
+    "starts_with": "@r = starts_with(#0, #1)",
+    "substring": "@r = substring(#0, @n)",
+    "strip": "@r = strip(#0)",
+    "upper": "@r = upper(#0)",
+    "lower": "@r = lower(#0)",
+}
+
+
+@ob(
+    "C01",
+    "O1-string-functions",
+    pre=["0 <= i < 7 and 0 <= j < 7", "0 <= n <= 3"],
+    post="_ == str_oracle(fn, i, j, n)",
+    bound="length, concat, starts_with, substring, strip, upper, lower over two cells picked by symbolic indexes from 7 texts "
+    "(1-3 letters, surrounding and inner blanks, mixed case) and a symbolic length 0..3; the value assigned from the function "
+    "equals the Python meaning docs/functions/string_functions.md refers to",
+    outside="other cell texts; empty cells (read as None)",
+    encodes=ENC + ["csvpath/matching/functions/strings/*.py (length, concat, starts_with, substring, strip, upper, lower)"],
+    tiers={"quick": {"timeout": 900, "shards": product(fn=list(STRFN))}},
+)
+def string_fn(fn: str, i: int, j: int, n: int):
+    p, pr = fresh("$SYM[*][ %s ]" % STRFN[fn], [["h", "i"], ["1", "2"]])
+    p.variables["n"] = n
+    line = [WORDS[i], WORDS[j]]
+    p.track_line(line)
+    p._consider_line(line)
+    return p.variables.get("r")
